@@ -218,9 +218,11 @@ theorem sim_update_top {w : Walker Node} {a : TW Node} (h : Sim H ps w a) (top :
     (hid : top'.pageId = top.pageId) (hc : CountersOK top') (hdf : DiffOK H ps top')
     (hctr : top'.prevChildrenLeaves = top.prevChildrenLeaves ∧ top'.pageLeaves = top.pageLeaves ∧
       top'.childrenLeaves = top.childrenLeaves)
-    (hm : PageMatches H top' st') (hrest : ∀ sp ∈ rest, PageMatches H sp st') (hroot : st' [] = a.store []) :
-    Sim H ps { w with stack := top' :: rest } { a with store := st' } := by
-  have hrecon : ReconInv H ({ w with stack := top' :: rest } : Walker Node) ({ a with store := st' } : TW Node) := by
+    (hm : PageMatches H top' st') (hrest : ∀ sp ∈ rest, PageMatches H sp st') (hroot : st' [] = a.store [])
+    (wl' : List Path) :
+    Sim H ps { w with stack := top' :: rest } { a with store := st', wl := wl' } := by
+  have hrecon : ReconInv H ({ w with stack := top' :: rest } : Walker Node)
+      ({ a with store := st', wl := wl' } : TW Node) := by
     refine ⟨h.recon.kinds, ?_, ?_, h.recon.outIds⟩
     · intro hr
       obtain ⟨h1, h2⟩ := h.recon.rc hr
@@ -334,7 +336,7 @@ theorem sim_write_top {w : Walker Node} {a : TW Node} (h : Sim H ps w a) (top : 
     (hd' : ∀ i, i < 126 → (top.diff.changed i = true ∨ i = specIndex r) → d'.changed i = true) :
     Sim H ps { w with stack := { top with page := { top.page with nodes := top.page.nodes.set (specIndex r) n },
                                           diff := d' } :: rest }
-      { a with store := upd a.store r n } := by
+      { a with store := upd a.store r n, wl := a.wl ++ [r] } := by
   obtain ⟨hlen, hm⟩ := h.pages top (by rw [hst]; simp)
   have hidx : specIndex r < 126 := specIndex_lt r hr
   apply sim_update_top H ps h top rest hst
